@@ -82,14 +82,14 @@ def _engineA(prop, nontrivial, quick_checks, thorough_checks, extra_units=(), st
         "units": units,
     }
 
-PROPS["C01"] = _engineA("C01", "a grant happened while another hold was outstanding, or a request was queued/refused because of capacity.", 4000, 200000)
-PROPS["C02"] = _engineA("C02", "the case contains a re-entrant success and at least one refused unlock.", 4000, 200000)
-PROPS["C03"] = _engineA("C03", "at least one asynchronous terminal reply or notice (grant from the queue, TIMEOUT, cancel, EXPRIED).", 4000, 200000)
-PROPS["C04"] = _engineA("C04", "at least two requests queued on one key and a hold ended while they waited.", 4000, 200000)
-PROPS["C05"] = _engineA("C05", "a TIMEOUT of a queued request fired from the long-wait table (T > 9 s) or while other requests stayed queued on the key.", 4000, 200000)
-PROPS["C06"] = _engineA("C06", "an EXPRIED notice while requests were queued on the key, or an applied update of a live hold.", 4000, 200000)
-PROPS["C17"] = _engineA("C17", "at least three different ways of ending a hold or a wait (unlock, one-level unlock, expiry, timeout, cancel, grant from queue) before the drain.", 4000, 200000)
-PROPS["C15"] = _engineA("C15", "engine A: at least three value operations of at least two kinds applied on one case including one refused request carrying a value operation; pure differential: at least three operations of at least two kinds.", 4000, 200000,
+PROPS["C01"] = _engineA("C01", "a grant happened while another hold was outstanding, or a request was queued/refused because of capacity.", 12000, 400000)
+PROPS["C02"] = _engineA("C02", "the case contains a re-entrant success and at least one refused unlock.", 12000, 400000)
+PROPS["C03"] = _engineA("C03", "at least one asynchronous terminal reply or notice (grant from the queue, TIMEOUT, cancel, EXPRIED).", 12000, 400000)
+PROPS["C04"] = _engineA("C04", "at least two requests queued on one key and a hold ended while they waited.", 12000, 400000)
+PROPS["C05"] = _engineA("C05", "a TIMEOUT of a queued request fired from the long-wait table (T > 9 s) or while other requests stayed queued on the key.", 12000, 400000)
+PROPS["C06"] = _engineA("C06", "an EXPRIED notice while requests were queued on the key, or an applied update of a live hold.", 12000, 400000)
+PROPS["C17"] = _engineA("C17", "at least three different ways of ending a hold or a wait (unlock, one-level unlock, expiry, timeout, cancel, grant from queue) before the drain.", 12000, 400000)
+PROPS["C15"] = _engineA("C15", "engine A: at least three value operations of at least two kinds applied on one case including one refused request carrying a value operation; pure differential: at least three operations of at least two kinds.", 8000, 300000,
     extra_units=[rapid_unit("pure", "^TestC15_PureDifferential$", quick={"checks": 40000, "shards": 8, "timeout_s": 300},
                             thorough={"checks": 2000000, "shards": 16, "timeout_s": 2400})])
 PROPS["C15"]["units"][1] = plain_unit("replay-C15", "^TestC15_Replay$", replay=True)
@@ -102,3 +102,111 @@ PROPS["C15"]["assumptions"] = PROPS["C15"]["assumptions"] + [
     "operations flagged process-first-or-last may legitimately be skipped (documented convention): both outcomes are accepted",
     "once nothing holds a key its value may vanish with the key manager at any time (candidate set {old value, none})",
 ]
+
+# ------------------------------------------------------------------------------------------------
+# C14 (harness written by a sub-agent, reviewed; see harness/notes/C14.md)
+PROPS["C14"] = {
+    "level": "exploration",
+    "rule": ("binary: for each of the 20 codec types of protocol/command.go (Command, ResultCommand, Init, Lock, State, Admin, Ping, "
+             "Quit, Call, Leader, Subscribe and their results; WILL_LOCK/WILL_UNLOCK reuse LockCommand, PUBLISH has no type) rapid draws "
+             "every field (per field: zero / all-ones / one-hot / arbitrary; names <= 38/37/43 bytes without NUL) -> Encode into a "
+             "pre-filled 64-byte buffer -> bytes at the documented offsets equal the fields -> Decode -> fields equal; and arbitrary "
+             "64 bytes -> Decode reads every field from its documented offset -> Encode reproduces every defined byte (per-type mask; "
+             "padding undefined). Offsets: README diagrams for the lock request/response, type declarations (field order, Blank[N]) "
+             "for the undocumented types, never the Encode/Decode bodies. text: 1-4 requests / 1-5 replies (OK, ERR, bulk, array) of "
+             "binary-safe, possibly empty arguments (<= 64 KiB) -> BuildRequest/BuildResponse must equal an independent RESP writer -> "
+             "delivered to a fresh TextParser with the exact loop of TextServerProtocol.Process / TextClientProtocol.Read "
+             "(optionally a first <= 64-byte delivery through CopyToReadBuf as Server.checkProtocol does) under a drawn plan "
+             "(read-buffer size, repeating chunk pattern, cuts aimed at length lines / CRLFs / simple-string ends) -> same arguments. "
+             "key/id: strings of 0..64 bytes (hex, near-hex, boundary lengths) vs a model written from the README. result text: every "
+             "code 0..12 renders [code,msg,LOCK_ID,hex,LCOUNT,n,COUNT,n+1,LRCOUNT,n,RCOUNT,n+1(,DATA,v)] and ParseResponse reads it back. "
+             "text LOCK/UNLOCK with the README's options in any order -> command fields of the model (into a dirty recycled command). "
+             "value frames: constructors (properties, array, KV, EXECUTE, INCR/SHIFT/POP) vs the accessors. server: the same 64 bytes "
+             "through BinaryServerProtocol.ProcessParse (unknown-database path, command read back from the free list) and through "
+             "LockCommand.Decode give identical fields and identical reply bytes; ProcessLockResultCommand (direct path with short "
+             "writes, buffered path, data frames up to > writer buffer) writes the bytes of LockResultCommand.Encode; a 1-10 step "
+             "LOCK/UNLOCK program run as binary frames and as text commands on a live database gives the same result fields "
+             "(text COUNT/RCOUNT = wire + 1). "
+             "Non-trivial: binary - every defined field has a non-zero byte; text - some delivery boundary falls strictly inside a "
+             "length line or between CR and LF; key/id - non-empty string; result text - non-zero code or counts; text LOCK - >= 3 "
+             "options; value frames - properties and value both present / >= 2 elements / key and value lengths differ / nested data; "
+             "server decode/encode - every request field non-zero (encode: and result, lcount, lrcount non-zero); live - >= 2 grants "
+             "and >= 1 refusal. Distinct = FNV-64 of the whole case."),
+    "assumptions": [
+        "CALL method names / error types / leader hosts contain no NUL byte (NUL is the padding byte); LeaderResultCommand.HostLen = len(Host) as its constructor sets it",
+        "a request has at least one argument ('*0' is not generated, see section 4)",
+        "simple strings and errors contain no CR/LF (RESP's own precondition)",
+        "text options appear at most once, with values in the README's ranges (COUNT <= 0xffff, RCOUNT <= 0xff, TIMEOUT/EXPRIED <= 0xffffffff, FLAG <= 0xff, WILL 0/1); option names upper-case as documented",
+        "array elements and KV keys/values of value frames are non-empty (the representation of an empty element is undocumented)",
+        "server decode differential uses frames the server answers without taking a lock: LOCK with DbId 0xff, UNLOCK with any DbId on an instance without databases; FLAG bit 0x20 is generated together with a well-formed data frame of >= 2 bytes (shorter ones belong to C13)",
+        "live text-vs-binary programs use TIMEOUT 0, EXPRIED 30..3000 s, FLAG 0, explicit LOCK_ID: every request is answered synchronously and never touches the clock",
+        "while a finding is listed as known its trigger is excluded by construction (vIsKnown): code 12; HostLen > 43; string area with a NUL before its end; empty simple strings and deliveries starting at their CR/LF/first space; a split argument whose last piece arrives without its CRLF; KV pairs with len(key) != len(value)",
+    ],
+    "units": [
+        rapid_unit("binary", "^TestC14_(BinaryRoundTrip|BinaryDecodeEncode|KeyIdNormalisation|ResultCodeText|TextLockConvert|ValueFrames)$",
+                   pkg="protocol", quick={"checks": 80000, "shards": 4, "timeout_s": 300},
+                   thorough={"checks": 24000000, "shards": 16, "timeout_s": 1500}),
+        rapid_unit("text", "^TestC14_Text(Request|Response)Chunking$", pkg="protocol",
+                   quick={"checks": 24000, "shards": 8, "timeout_s": 300},
+                   thorough={"checks": 6000000, "shards": 16, "timeout_s": 1500}),
+        rapid_unit("server", "^TestC14_(ServerInlineDecode|ServerInlineEncode|TextVsBinaryLive)$", pkg="server",
+                   quick={"checks": 32000, "shards": 4, "timeout_s": 300},
+                   thorough={"checks": 12000000, "shards": 16, "timeout_s": 1500}),
+        plain_unit("replay-protocol", "^TestC14_Replay$", pkg="protocol", replay=True),
+        plain_unit("replay-server", "^TestC14_Replay$", pkg="server", replay=True),
+    ],
+}
+
+# ------------------------------------------------------------------------------------------------
+# C19 (harness written by a sub-agent, reviewed; see harness/notes/C19.md)
+PROPS["C19"] = {
+    "level": "exploration",
+    "rule": ("rapid-generated cases = plain JSON scripts for 2..64 real goroutines (90% 2..12) on 1..8 client connections "
+             "(goroutine -> connection drawn per script, so conns=1 is request pipelining from up to 64 goroutines on ONE "
+             "connection) against one in-process leader per shard on a loopback port, fresh key per case, timeout 20 s / "
+             "expiry 60 s so the server never ends a wait or a hold itself; per step a pause and a hold of 0 / Gosched / "
+             "0.1 / 0.4 / 1 / 3 ms. Primitives: Lock, RLock (own RLock object per goroutine, 0..3 extra re-entrant Lock() "
+             "calls per hold, 25% of goroutines compete with a plain Lock object), Semaphore(n) and MaxConcurrentFlow(n) "
+             "n=1..5, RWLock (each step reader or writer), PriorityLock (a holder, then 2..23 waiters with priorities "
+             "mostly 0..4; the harness waits until LIST_WAIT shows every waiter queued before the holder releases), Event "
+             "in default-set and default-clear mode (one setter doing Set/Clear 1..6 rounds, waiters doing 1..4 Waits, "
+             "optionally released by the harness right after a Clear returned). Thorough only: Lock with a mid-run drop of "
+             "all connections by the server (client reconnects after its 3 s back-off; unanswered requests are removed "
+             "with CancelWait and retried). Oracle: client-side history with one global atomic logical clock; an acquire is "
+             "stamped after the client call returned, a release before the unlock is issued; at no instant more than 1 "
+             "(Lock, RLock until the k-th unlock of k locks is called, PriorityLock) / n (Semaphore, MaxConcurrentFlow) "
+             "definitely-held intervals overlap, never a writer with another writer or reader; a re-entrant Lock() by the "
+             "holder must succeed; a release of a definitely-held primitive must not fail; PriorityLock hand-overs in "
+             "acquire-return order have non-increasing priority (higher number first, as client/prioritylock_test.go and "
+             "the server's priority ring define it); a successful Event.Wait must not lie entirely inside an interval "
+             "(Clear returned, next Set called) - for a default-clear event that includes (start, first Set called). "
+             "Acquire failures/timeouts are recorded, not judged. Non-trivial: max simultaneous holders reached the bound "
+             "AND >=1 successful acquire was called at an instant where the primitive was definitely full (so it had to "
+             "wait for a release); RLock additionally: such a wait began while the holder was inside a hold with >=1 "
+             "successful re-entry; RWLock: a forced wait and both a reader and a writer acquired; PriorityLock: all waiters "
+             "queued before the release (settled), >=2 distinct priorities, every waiter acquired; Event: >=1 successful "
+             "Wait was called while the event was definitely clear; reconnect: additionally >=1 transport error and >=1 "
+             "acquire after the drop. Distinct = distinct FNV-64 of the case JSON. Executions use real goroutines and "
+             "sockets: scripts replay, schedules do not (TestC19_Replay retries a file up to 400 times; the committed "
+             "probe replay is deterministic). A 30 s per-case watchdog prints VERIF-INCONCLUSIVE and exits 3."),
+    "assumptions": [
+        "one primitive object per goroutine (Lock/RLock/MaxConcurrentFlow/RWLock/PriorityLock objects carry one lock id; "
+        "sharing one object between goroutines is not a documented use)",
+        "higher PriorityLock number = served first (client/prioritylock_test.go); order among equal priorities is not asserted",
+        "Event: single setter goroutine alternating Set/Clear; default-set events are cleared once before the waiters start",
+        "expiry 60 s and timeout 20 s are never reached in a healthy run, so the server never ends a hold or a wait by itself",
+        "reconnect mode is restricted to Lock: it is the only primitive whose API (CancelWait) can remove a request that "
+        "lost its connection; a release that got no answer is retried and a later UNLOCK_ERROR answer is then accepted",
+        "known finding C19:event-wait-before-set is excluded by construction while listed as known: a default-clear event "
+        "is then set exactly once and never cleared again",
+    ],
+    "units": [
+        rapid_unit("primitives", "^TestC19_(Lock|RLock|Semaphore|Flow|RWLock|PriorityLock|Event)$", pkg="server",
+                   quick={"checks": 160, "shards": 4, "timeout_s": 120, "shrinktime": "20s"},
+                   thorough={"checks": 4000, "shards": 8, "timeout_s": 900, "shrinktime": "30s"}),
+        rapid_unit("reconnect", "^TestC19_LockReconnect$", pkg="server",
+                   thorough={"checks": 96, "shards": 8, "timeout_s": 600, "shrinktime": "30s"}),
+        plain_unit("selftest", "^TestC19_OracleSelfTest$", pkg="server"),
+        plain_unit("replay", "^TestC19_Replay$", pkg="server", replay=True),
+    ],
+}
